@@ -46,7 +46,7 @@ type inlineState struct {
 	temps   int
 	changed bool
 
-	curNRes     int // number of results of the function whose body is being processed
+	curNRes     int                     // number of results of the function whose body is being processed
 	funcArgs    map[*types.Var]ast.Expr // function-valued parameters bound by the inliner -> argument
 	closures    map[*types.Var]*FuncDecl
 	closureDefs map[*types.Var]int
@@ -2330,7 +2330,6 @@ func (st *inlineState) replaceExprs(v reflect.Value, pred func(ast.Expr) bool, m
 		}
 	}
 }
-
 
 // typeSwitchNil: a type switch on a plain variable with a `case nil` clause is
 // `if v == nil { <nil clause> } else { <the switch without that clause> }`:
